@@ -1483,3 +1483,169 @@ theorem seeded_bioRead_doubles_the_wait (C : Cfg) (hpos : 0 < C.stepsMax) (n : N
   omega
 
 end SockModel.Tls
+
+namespace SockModel.Tls
+set_option linter.unusedSimpArgs false
+open SockModel.Net
+
+/-- an engine that calls its read BIO AGAIN after the callback reported a failure (libssl does not) -/
+def retryingEngine : Engine Unit where
+  sslRead _ n := .bioRead n (fun r => match r with
+    | none => .bioRead n (fun _ => .ret .wantRead [] ())
+    | some _ => .ret .wantRead [] ())
+  sslWrite _ d := .ret (.done d.length) [] ()
+  initFinished _ := true
+
+/-- **`FailStop` is needed (its first half), and the library relies on it.**  `UnderDeadline` does not write the budget
+back when the socket call throws (`auto res = fn(); deadline.Tick(); timeout = deadline.Remaining();`).  History:
+`Receive(…, 50)`; the descriptor is reported ready after 40 ms (POLLERR), `recv` fails (ECONNRESET), `BioRead` throws,
+the failure is stashed and -1 returned; an engine that now calls the read BIO again waits with the STALE budget 50 at
+clock 40, sits it out, and the call ends (with the stashed exception) at 90 > 50.  libssl returns at once with
+SSL_ERROR_SYSCALL after such a failure, so the real library does not get here; a write-back on the exception path
+would make the glue independent of that. -/
+theorem stale_budget_after_callback_failure :
+    let r := receiveT Cfg.current (logWorld TW.world) retryingEngine
+      (freshOn () { waits := [(true, 40)], recvs := [.fail 104] }) 16 50
+    r.1 = .exn (.system 104) ∧ logOf r.2 = [⟨.rd, 50, 40⟩, ⟨.rd, 50, 0⟩] ∧ r.2.w.1.clock = 90 ∧
+    ¬ Tls.FailStop (retryingEngine.sslRead () 16) := by
+  refine ⟨by decide, by decide, by decide, ?_⟩
+  intro h
+  cases h with
+  | bioRead _ hnone =>
+    obtain ⟨a, o, s, hk, _⟩ := hnone
+    simp at hk
+
+/-- an engine that invokes the write BIO with zero bytes before it reads (`BIO_write` never does: it returns early
+for `dlen <= 0`) -/
+def emptyWriteEngine : Engine Unit where
+  sslRead _ n := .bioWrite [] (fun _ => .bioRead n (fun _ => .ret .wantRead [] ()))
+  sslWrite _ d := .ret (.done d.length) [] ()
+  initFinished _ := true
+
+/-- **`FailStop` is needed (its second half).**  `BioWrite(data, 0)` with a limited budget: `SendSome` waits for
+"writable", times out, `sent == size` holds trivially and `remainingTime = deadline.Remaining()` is computed from a
+deadline that was never ticked: the full budget again.  History: `Receive(…, 50)` in a world that is never ready; the
+zero-byte write waits 50, the read waits 50 again: the call returns at 100. -/
+theorem stale_budget_after_empty_write :
+    (receiveT Cfg.current (logWorld TW.world) emptyWriteEngine (freshOn () {}) 16 50).1 = .ok [] ∧
+    logOf (receiveT Cfg.current (logWorld TW.world) emptyWriteEngine (freshOn () {}) 16 50).2
+      = [⟨.rd, 0, 100⟩, ⟨.rd, 50, 50⟩, ⟨.wr, 50, 0⟩] ∧
+    (receiveT Cfg.current (logWorld TW.world) emptyWriteEngine (freshOn () {}) 16 50).2.w.1.clock = 100 ∧
+    ¬ Tls.FailStop (emptyWriteEngine.sslRead () 16) := by
+  refine ⟨?_, ?_, ?_, ?_⟩
+  · simp [emptyWriteEngine, receiveT, sendT, tlsRead, tlsWrite, handleLastError, handleError, setTimeout, freshOn, withLog, readLoop, readRound, writeLoop, writeRound, writeRetry, roundDecreases, setPending, interp, bioRead, bioWrite, noteWrite, Net.sendSome, Net.sendAll, sendTry, sendNow, receive, recvNow, logWorld, TW.world, TW.elapsed, noteCall, handleResult, SslAns.toErr, setLastError, waitUnder, underDeadline, remainingMs, logOf, stash, Cfg.current, stepsMaxConst, SockModel.Consts.handshakeStepsMax]
+  · simp [emptyWriteEngine, receiveT, sendT, tlsRead, tlsWrite, handleLastError, handleError, setTimeout, freshOn, withLog, readLoop, readRound, writeLoop, writeRound, writeRetry, roundDecreases, setPending, interp, bioRead, bioWrite, noteWrite, Net.sendSome, Net.sendAll, sendTry, sendNow, receive, recvNow, logWorld, TW.world, TW.elapsed, noteCall, handleResult, SslAns.toErr, setLastError, waitUnder, underDeadline, remainingMs, logOf, stash, Cfg.current, stepsMaxConst, SockModel.Consts.handshakeStepsMax]
+  · simp [emptyWriteEngine, receiveT, sendT, tlsRead, tlsWrite, handleLastError, handleError, setTimeout, freshOn, withLog, readLoop, readRound, writeLoop, writeRound, writeRetry, roundDecreases, setPending, interp, bioRead, bioWrite, noteWrite, Net.sendSome, Net.sendAll, sendTry, sendNow, receive, recvNow, logWorld, TW.world, TW.elapsed, noteCall, handleResult, SslAns.toErr, setLastError, waitUnder, underDeadline, remainingMs, logOf, stash, Cfg.current, stepsMaxConst, SockModel.Consts.handshakeStepsMax]
+  · intro h
+    cases h with
+    | bioWrite hne _ _ => exact hne rfl
+
+/-- an engine that answers WANT_READ without having been told "retry" by its BIO -/
+def alwaysWantsRead : Engine Unit where
+  sslRead _ _ := .ret .wantRead [] ()
+  sslWrite _ d := .ret (.done d.length) [] ()
+  initFinished _ := false
+
+/-- the `-DNDEBUG` build of the code as it is -/
+def Cfg.ndebug : Cfg := { Cfg.current with asserts := false }
+
+/-- **`BlockingRead` is needed.**  What the model (and the code) does when the engine keeps answering WANT_READ under
+an unlimited timeout: `HandleError` waits (unlimited, comes back ready) and the loop goes round; after
+`handshakeStepsMax` rounds `Read` gives up: `assert(i < handshakeStepsMax)` in builds with assertions, and with
+`-DNDEBUG` `Receive(…, -1)` returns `nullopt` - "nothing" although the timeout is unlimited.  (Compare F9, where the
+same round limit cut a long `Send` short.)  With OpenSSL this needs WANT_READ from a blocking BIO, which
+SSL_MODE_AUTO_RETRY (the default since 1.1.1) rules out. -/
+theorem unlimited_receive_needs_blocking_engine :
+    (receiveT Cfg.ndebug (logWorld TW.world) alwaysWantsRead (freshOn () {}) 16 (-1)).1 = .ok [] ∧
+    (logOf (receiveT Cfg.ndebug (logWorld TW.world) alwaysWantsRead (freshOn () {}) 16 (-1)).2).length = Cfg.current.stepsMax ∧
+    (receiveT Cfg.current (logWorld TW.world) alwaysWantsRead (freshOn () {}) 16 (-1)).1
+      = .abort "assert(i < handshakeStepsMax) in Read" ∧
+    ¬ BlockingRead alwaysWantsRead := by
+  refine ⟨by decide, by decide, by decide, ?_⟩
+  intro h
+  have := h () 16
+  cases this with
+  | ret hp => exact hp.1 rfl
+
+/-! ### the hypotheses are satisfiable: a scripted world and a two-round engine -/
+
+/-- a small handshake: round 1 writes a hello and reads the reply (WANT_READ until it is there), later rounds read
+application data; after a failed callback it answers SSL_ERROR_SYSCALL at once; it never writes zero bytes -/
+def twoRoundEngine : Engine Nat where
+  sslRead st n :=
+    if st = 0 then
+      .bioWrite [22, 3, 1] (fun r => match r with
+        | none => .ret .syscallErr [] st
+        | some _ => .bioRead n (fun r => match r with
+          | none => .ret .syscallErr [] st
+          | some [] => .ret .wantRead [] st
+          | some _ => .ret .wantRead [] 1))
+    else
+      .bioRead n (fun r => match r with
+        | none => .ret .syscallErr [] st
+        | some [] => .ret .wantRead [] st
+        | some bs => .ret (.done bs.length) bs st)
+  sslWrite st d :=
+    if d = [] then .ret (.done 0) [] st
+    else .bioWrite d (fun r => match r with
+      | none => .ret .syscallErr [] st
+      | some 0 => .ret .wantWrite [] st
+      | some m => .ret (.done m) [] st)
+  initFinished st := st != 0
+
+example : twoRoundEngine.FailStop := by
+  constructor
+  · intro s n
+    unfold twoRoundEngine
+    simp only
+    split
+    · refine .bioWrite (by simp) ?_ ⟨_, _, _, rfl, rfl⟩
+      intro m
+      refine .bioRead ?_ ⟨_, _, _, rfl, rfl⟩
+      intro bs; cases bs <;> exact .ret
+    · refine .bioRead ?_ ⟨_, _, _, rfl, rfl⟩
+      intro bs; cases bs <;> exact .ret
+  · intro s d
+    unfold twoRoundEngine
+    simp only
+    split
+    · exact .ret
+    · rename_i hd
+      refine .bioWrite hd ?_ ⟨_, _, _, rfl, rfl⟩
+      intro m; cases m <;> exact .ret
+
+example : ClockOk TW.world := TW.clockOk
+example : ZeroFree TW.world := TW.clockOk.zeroFree
+example : UnlimitedReady TW.world := TW.unlimitedReady
+example : BlockingRead idleEngine → False := fun h => by have := h () 0; cases this with | ret hp => exact hp.1 rfl
+
+/-- (T3) at work: `Receive(16 bytes, 50 ms)` through the handshake.  The hello is written (writable after 3 ms), the
+reply arrives after 10 more ms; round 1 ends in WANT_READ and `HandleError` waits with what is left, 37 (the
+descriptor is ready at once); round 2 reads the application data (ready after 5 ms): four waits with the arguments
+50, 47, 37, 37, each within `50 - elapsed`; the call returns at 18 ≤ 50 with the budget 32 left. -/
+example :
+    (receiveT Cfg.current (logWorld TW.world) twoRoundEngine
+      (freshOn 0 { waits := [(true, 3), (true, 10), (true, 0), (true, 5)], recvs := [.data [22, 3, 2], .data [7, 8, 9]] }) 16 50)
+    = (.ok [7, 8, 9],
+       { g := { remainingTime := 32, wire := [22, 3, 1], bioWrites := [⟨[22, 3, 1], 3⟩],
+                engCalls := [⟨true, [], .done 3, true⟩, ⟨true, [], .wantRead, true⟩] },
+         e := 1,
+         w := ({ clock := 18 }, [⟨.rd, 37, 13⟩, ⟨.rd, 37, 13⟩, ⟨.rd, 47, 3⟩, ⟨.wr, 50, 0⟩]) }) := by
+  simp [twoRoundEngine, Int.min_def, receiveT, sendT, tlsRead, tlsWrite, handleLastError, handleError, setTimeout, freshOn, withLog, readLoop, readRound, writeLoop, writeRound, writeRetry, roundDecreases, setPending, interp, bioRead, bioWrite, noteWrite, Net.sendSome, Net.sendAll, sendTry, sendNow, receive, recvNow, logWorld, TW.world, TW.elapsed, noteCall, handleResult, SslAns.toErr, setLastError, waitUnder, underDeadline, remainingMs, logOf, stash, Cfg.current, stepsMaxConst, SockModel.Consts.handshakeStepsMax]
+
+/-- (T1) at work: the same history with timeout 0 - every wait has the argument 0 and the clock does not move -/
+example :
+    let r := receiveT Cfg.current (logWorld TW.world) twoRoundEngine
+      (freshOn 0 { waits := [(true, 3), (false, 10)], recvs := [] }) 16 0
+    r.1 = .ok [] ∧ logOf r.2 = [⟨.rd, 0, 0⟩, ⟨.rd, 0, 0⟩, ⟨.wr, 0, 0⟩] ∧ r.2.w.1.clock = 0 := by decide
+
+/-- (T2) at work: unlimited timeout, a short write: `SendAll` waits twice, both times with -1 -/
+example :
+    logOf (sendT Cfg.current (logWorld TW.world) twoRoundEngine
+      (freshOn 1 { waits := [(true, 3), (true, 4)], sends := [.accept 2] }) [1, 2, 3] (-1)).2
+      = [⟨.wr, -1, 3⟩, ⟨.wr, -1, 0⟩] ∧
+    (sendT Cfg.current (logWorld TW.world) twoRoundEngine
+      (freshOn 1 { waits := [(true, 3), (true, 4)], sends := [.accept 2] }) [1, 2, 3] (-1)).1 = .ok 3 := by
+  constructor <;> simp [twoRoundEngine, Int.min_def, receiveT, sendT, tlsRead, tlsWrite, handleLastError, handleError, setTimeout, freshOn, withLog, readLoop, readRound, writeLoop, writeRound, writeRetry, roundDecreases, setPending, interp, bioRead, bioWrite, noteWrite, Net.sendSome, Net.sendAll, sendTry, sendNow, receive, recvNow, logWorld, TW.world, TW.elapsed, noteCall, handleResult, SslAns.toErr, setLastError, waitUnder, underDeadline, remainingMs, logOf, stash, Cfg.current, stepsMaxConst, SockModel.Consts.handshakeStepsMax]
+
+end SockModel.Tls
